@@ -274,6 +274,7 @@ Inductive action :=
 | AEnvUnc (n : N)                 (* environment: after the next closure n tags are uncertain *)
 | AEnvConvWork (b : bool)         (* environment: the converter scheduler will (not) find work *)
 | ABoot                           (* first closure of manager.New: start tagging / converter / merge jobs if needed *)
+| AMergeFail                      (* body of the parked merge job when index.Merge returns an error: nothing is left behind *)
 | AStart (k : kind)
 | AComplete (k : kind).
 
@@ -423,6 +424,15 @@ Definition step (st : state) (a : action) : state :=
                  (next_id st) (next_uid st) (nunm st) (cwork st) (unc st) (cjob st)
                  (ijob st) (mjob st) (invalidate_tj hit (tjob st)) (views st)))
   | AConvSet => start_converter st
+  | AMergeFail =>
+      match mjob st with
+      | Some (mkMJ off snap AtStart _) =>
+          (* the partial output is closed and removed by Merge itself; the completion will count the run as unmergeable *)
+          mkState (indexes st) (used st) (disk st) (queue st) (known st) (processed st) (next_cap st)
+                  (next_id st) (next_uid st) (nunm st) (cwork st) (unc st) (cjob st)
+                  (ijob st) (Some (mkMJ off snap AtDone [])) (tjob st) (views st)
+      | _ => st
+      end
   | ABoot => start_merge (start_converter (start_tagging st))
   | AConvRemove => st
   | AConvAdd => st
@@ -555,6 +565,7 @@ Definition enabled (st : state) (a : action) : bool :=
   | ATagAdd => true
   | ATagDel hit | ATagUpd hit => if hit then match tjob st with Some _ => true | None => false end else true
   | AConvSet | AConvRemove | AConvAdd | AEnvUnc _ | AEnvConvWork _ | ABoot => true
+  | AMergeFail => match mjob st with Some j => match mj_phase j with AtStart => true | _ => false end | None => false end
   | AStart KImport => match ijob st with Some j => match ij_phase j with AtStart => true | _ => false end | None => false end
   | AStart KMerge => match mjob st with Some j => match mj_phase j with AtStart => true | _ => false end | None => false end
   | AStart KTag => match tjob st with Some j => match tj_phase j with AtStart => true | _ => false end | None => false end
